@@ -104,14 +104,26 @@ func (obj HashTable) LoadForm() Object {
 		List{List{tsym, List{Symbol("make-hash-table")}}},
 	}
 	for k, v := range obj {
-		switch k.(type) {
-		case Symbol:
-			form = append(form, List{Symbol("setf"), List{Symbol("gethash"), List{quoteSymbol, k}, tsym}, v})
-		case String, Number, nil:
-			form = append(form, List{Symbol("setf"), List{Symbol("gethash"), k, tsym}, v})
-		}
+		form = append(form, List{Symbol("setf"), List{Symbol("gethash"), loadFormOf(k), tsym}, loadFormOf(v)})
 	}
 	form = append(form, Symbol("table"))
 
 	return form
+}
+
+// loadFormOf returns the form that evaluates to the key or value of a table
+// entry. The form is evaluated when loaded so a symbol has to be quoted and
+// anything else is built by its own load form.
+func loadFormOf(obj Object) (form Object) {
+	switch to := obj.(type) {
+	case nil:
+		// already nil
+	case Symbol:
+		form = List{quoteSymbol, to}
+	case LoadFormer:
+		form = to.LoadForm()
+	default:
+		PrintNotReadablePanic(NewScope(), 0, to, "Can not make a load form for %s.", to)
+	}
+	return
 }
